@@ -80,6 +80,25 @@ func init() {
 		// the full profile (Huffman codes of 17 and 18 bits just before the first rebuild of the tree) comes FIRST
 		// after the short inputs in both tiers: codes longer than 16 bits exist on no smaller input
 		ins = append([]lzInput{{"fib-profile-full", fibProfile(1.0)}}, ins...)
+		{
+			// binary data long enough for the adaptive tree to be REBUILT (about 32.4k coded symbols) with every byte
+			// value on both sides of the rebuild: the leaf pointers of all 256 literals are used after it
+			b := make([]byte, 40000)
+			c.Rng.Read(b)
+			// ... in two variants: before the rebuild one of the two lowest byte values (the first leaves of the table)
+			// is frequent and the other absent, afterwards both occur
+			b2 := append([]byte{}, b...)
+			for k := 0; k < 34000; k++ {
+				if b[k] == 1 {
+					b[k] = 0
+				}
+				if b2[k] == 0 {
+					b2[k] = 1
+				}
+			}
+			b, b2 = append(b, 1, 1, 0, 1, 255, 254, 1), append(b2, 0, 0, 1, 0, 255, 254, 0)
+			ins = append([]lzInput{{"random-binary-rebuild", b}, {"random-binary-rebuild", b2}}, ins...)
+		}
 		if !c.Thorough() {
 			ins = append(ins, lzInput{"fib-profile-half", fibProfile(0.35)})
 		}
